@@ -31,7 +31,7 @@ impl Monitor for C12 {
         if tier == Tier::Sanitizer {
             vec!["uplinks_checked"]
         } else {
-            vec!["uplinks_checked", "adrackreq_expected", "backoff_step_expected", "ack_expected", "accepted_downlink", "rejected_downlink", "adr_toggle", "at_lowest_rate_with_n_ge_64", "classc_downlink", "two_classc_downlinks", "mask_limited_uplinks"]
+            vec!["uplinks_checked", "adrackreq_expected", "backoff_step_expected", "ack_expected", "accepted_downlink", "rejected_downlink", "adr_toggle", "at_lowest_rate_with_n_ge_64", "classc_downlink", "two_classc_downlinks", "mask_limited_uplinks", "adr_set_again"]
         }
     }
 
@@ -178,6 +178,12 @@ fn history(front: Front, reg: Reg, rng: &mut Prng, col: &mut Collector) {
             suspended = true;
             col.event("adr_toggle");
             recent.push(format!("set_adr({})", adr));
+        }
+        if adr && rng.chance(1, 60) {
+            // switching ADR on while it is on changes nothing: the count goes on
+            dev.set_adr(true);
+            col.event("adr_set_again");
+            recent.push("set_adr(true) while on".into());
         }
         if rng.chance(1, 120) {
             let d = *rng.pick(&drs);
